@@ -394,6 +394,9 @@ func runC18(p *Plan, res *Result) {
 			distinct = append(distinct, st)
 		}
 	}
+	// canonical order: DefraDB walks Go maps (the fields of a document), so the order in which a call reaches
+	// its storage operations is not a function of the seed; the set of sites is
+	sort.Slice(distinct, func(i, j int) bool { return distinct[i].String() < distinct[j].String() })
 	if max := p.cfg("maxsites", 60); len(distinct) > max {
 		rr := newRng(p.Seed, 78)
 		keep := map[int]bool{}
